@@ -4,7 +4,7 @@ P=$1; ID=$2; TIER=${3:-quick}
 cd /repo || exit 2
 if [ -n "$(git status --porcelain --untracked-files=no)" ]; then echo "repo dirty"; exit 2; fi
 git apply "$P" || { echo "APPLY-FAILED $P"; exit 2; }
-OUT=$(cd /verif && VERIF_EVIDENCE_DIR=/tmp timeout 3000 bin/vcheck $ID $TIER 2>&1)
+OUT=$(cd /verif && VERIF_EVIDENCE_DIR=/verif/target/mutant-evidence timeout 3000 bin/vcheck $ID $TIER 2>&1)
 RC=$?
 git -C /repo checkout -- .
 # evidence was overwritten by the mutant run: caller should re-run the check on the clean tree
